@@ -27,7 +27,8 @@ RULE = ("all 2^11 section-flag combinations x every PCode member (exhaustive for
         "(compared only when the template still accepts them). distinct_nontrivial = distinct (flag combination, PCode) "
         "pairs on which both decoders were compared and agreed"
         ". Round-5 additions: the template's plain-data form must re-encode to the payload too; generated payloads are written into viewer object cache files (independent writer hv/vocache_fs.py) together with entries at the format's size limits (1, 9999, 10000 valid; 0 and 10001 dataless) and read back through RegionViewerObjectCache: every valid entry byte-for-byte, then through both decoders"
-        ". Rounds 6-7: rotations with particular geometry (exact half turns, over-long vector parts); NameValue text with line-break-like characters")
+        ". Rounds 6-7: rotations with particular geometry (exact half turns, over-long vector parts); NameValue text with line-break-like characters"
+        ". Round 10: one-byte-counted collections of small fixed-size entries filled to exactly 255 entries (every 25th; shared deriver)")
 ASSUMPTIONS = [
     "well-formed = encodable by the declarative template with an object kind from the PCode enum; payloads whose kind byte "
     "is outside the enum are counted separately (the fast path deliberately builds the enum member)",
